@@ -444,6 +444,11 @@ pub fn run_property(p: Arc<PropertyDef>, tier: Tier, seed: u64) -> i32 {
         if e.status != "known" {
             continue;
         }
+        if e.replay.is_none() {
+            // a listed finding without a saved reproduction (a general form of other entries)
+            println!("KNOWN-FINDING: property={} {} -- {}", p.id, e.key, e.what);
+            known_printed.insert(e.key.clone());
+        }
         if let Some(rp) = &e.replay {
             let path = format!("{}/{}", VERIF_DIR, rp);
             match replay_file(&p, &path) {
